@@ -86,6 +86,9 @@ func gen(g *vh.Gen) {
 	emit(0, []string{a(0, 1), a(2, 2)}, "p.0")            // sibling shares level 1 only
 	emit(1, []string{a(0, 1), a(1, 2), a(3, 3)}, a(0, 4)) // cap 1 with a sibling
 	emit(3, []string{a(3, 1), a(3, 2), a(3, 3), a(3, 4)}, a(3, 5))
+	// the cap shrank between runs: one delivery evicts several messages (one index commit each)
+	emit(0, []string{a(0, 1), a(0, 2), a(0, 3), a(0, 4), "C.2"}, a(0, 5))
+	emit(0, []string{a(1, 1), a(1, 2), a(1, 3), a(0, 4), "C.1"}, a(1, 5))
 	emit(0, nil, "p.3")
 	emit(0, nil, "r.3.99")
 	for i := 0; i < g.N(26, 700); i++ {
@@ -106,6 +109,9 @@ func gen(g *vh.Gen) {
 		var hist []string
 		for j := 0; j < n; j++ {
 			hist = append(hist, s.op(mbs, 0.65))
+		}
+		if g.Chance(0.15) {
+			hist = append(hist, fmt.Sprintf("C.%d", 1+g.Intn(2)))
 		}
 		emit(cap, hist, s.op(mbs, 0.4))
 	}
